@@ -94,10 +94,16 @@ func (s *gstate) open() bool {
 }
 
 func (s *gstate) start() bool {
-	// documented behaviour of OnStart: an empty head gets an end-height marker for height 0
+	// documented behaviour of OnStart: a brand-new log (nothing in the head nor in any rotated
+	// file) gets an end-height marker for height 0. (Until the fix of the crash-after-rotation
+	// defect, see known_findings.json, an empty head alone was enough.)
 	sz := int64(0)
-	if fi, err := os.Stat(s.path); err == nil {
-		sz = fi.Size()
+	if ents, err := os.ReadDir(filepath.Dir(s.path)); err == nil {
+		for _, e := range ents {
+			if fi, err := e.Info(); err == nil && !fi.IsDir() {
+				sz += fi.Size()
+			}
+		}
 	}
 	now := time.Now().Round(0).UTC()
 	if err := s.wal.Start(); err != nil {
